@@ -396,12 +396,13 @@ func genMem(e *isaspec.Entry) {
 				add("alias:dst=addr", "%s %s, v[10:11]", n, vreg(10, max(32, m.Bytes*8)))
 			}
 		} else {
-			for _, o := range []string{"", " offset:4", " offset:-4", " offset:4095", " offset:-4096"} {
+			for _, o := range []string{"", " offset:4", " offset:-4", " offset:4095", " offset:-4096", " offset:2047", " offset:-2048", " offset:16"} {
 				add("off", "%s", ops("v[20:21]", ", off"+o))
 			}
-			for _, o := range []string{"", " offset:16", " offset:-16"} {
+			for _, o := range []string{"", " offset:16", " offset:-16", " offset:4", " offset:-4", " offset:-8", " offset:2047", " offset:4095", " offset:-2048", " offset:-4096"} {
 				add("saddr", "%s", ops("v20", ", s[4:5]"+o))
 			}
+			add("saddr:sgpr-hi", "%s", ops("v20", ", s[100:101] offset:-4"))
 			add("saddr=s[0:1]", "%s", ops("v20", ", s[0:1]"))
 		}
 	}
